@@ -123,7 +123,8 @@ def columns_layout(context, box, bottom_space, skip_stack, containing_block,
             block.position_y = current_position_y
             new_child, resume_at, next_page, adjoining_margins, _, _ = (
                 block_level_layout(
-                    context, block, original_bottom_space, skip_stack,
+                    context, block, original_bottom_space,
+                    skip_stack and skip_stack[0],
                     containing_block, page_is_empty, absolute_boxes,
                     fixed_boxes, adjoining_margins))
             skip_stack = None
@@ -138,7 +139,7 @@ def columns_layout(context, box, bottom_space, skip_stack, containing_block,
             if resume_at:
                 last_loop = True
                 break_page = True
-                column_skip_stack = resume_at
+                column_skip_stack = {0: resume_at}
                 break
             page_is_empty = False
             continue
